@@ -203,6 +203,10 @@ func program(top *fn, iter bool) string {
 }
 
 func judge(c *Case) (sig, detail string) {
+	return interp.Guard(func() (string, string) { return judgeRaw(c) }, func() { vt.Discard("an evaluation of this case ran out of its budget (inconclusive)") })
+}
+
+func judgeRaw(c *Case) (sig, detail string) {
 	c.Src = program(c.Top, c.Iter)
 	want := []string{"pre"}
 	modelRun = 1
